@@ -105,6 +105,7 @@ def main(argv):
 
     known = load_known()
     violations, inconclusive, known_lines, also_failed = [], [], [], []
+    replayed_keys = set()
     for full, (h, r) in sorted(results.items()):
         expect = h["expect"]
         v = r["verdict"]
@@ -128,6 +129,12 @@ def main(argv):
             if not is_viol:
                 inconclusive.append((h, "unwinding assertion failed (bound too small) - not a pass"))
                 r["verdict"] = "unwind"
+                continue
+            fk0 = h.get("finding")
+            if expect == "fail" and fk0 and fk0 in replayed_keys and any(e.get("kind") == "finding" and e.get("key") == fk0 for e in known):
+                # same known finding already reproduced natively through another witness harness
+                r["verdict"] = "known-finding"
+                r["note"] = "solver counterexample; native replay done once per finding key"
                 continue
             # replay natively
             if term and r["unwinding_failed"] and not r["property_failed"]:
@@ -174,6 +181,7 @@ def main(argv):
             if ok and expect == "fail" and fk and any(e.get("kind") == "finding" and e.get("key") == fk for e in known):
                 e = [e for e in known if e.get("key") == fk][0]
                 known_lines.append(f"KNOWN-FINDING: property={prop} {fk}: {e['what']}")
+                replayed_keys.add(fk)
                 r["verdict"] = "known-finding"
             elif ok:
                 violations.append((h, d, r))
